@@ -297,6 +297,11 @@ class Interp:
             if isinstance(base, (list, dict, set, tuple)) and f.attr in ('append', 'extend', 'get', 'items', 'keys', 'values', 'add', 'copy', 'index', 'count', 'pop', 'discard', 'remove', 'update', 'setdefault'):
                 return getattr(base, f.attr)(*args, **kwargs)
             raise ShapeError(f'call `{ast.unparse(f)}` has no table reading')
+        if isinstance(f, (ast.Call, ast.Subscript, ast.IfExp)):
+            # the callee is itself computed (`table[op](...)`, `self._pick(op)(*args)`)
+            target = self.ev(f, env)
+            if callable(target):
+                return target(*args, **kwargs)
         raise ShapeError(f'call `{ast.unparse(k)[:60]}` not read')
 
     def _isinstance(self, v: Any, cls_expr: ast.AST) -> bool:
@@ -362,7 +367,23 @@ class Interp:
         if isinstance(p, ast.MatchSingleton):
             return v is p.value
         if isinstance(p, ast.MatchSequence):
-            if not isinstance(v, (tuple, list)) or len(v) != len(p.patterns):
+            if not isinstance(v, (tuple, list)):
+                return False
+            stars = [i for i, sp in enumerate(p.patterns) if isinstance(sp, ast.MatchStar)]
+            if len(stars) == 1:
+                i = stars[0]
+                tail = len(p.patterns) - i - 1
+                if len(v) < len(p.patterns) - 1:
+                    return False
+                head_ok = all(self.match_pattern(sp, x, env) for sp, x in zip(p.patterns[:i], v[:i]))
+                tail_ok = all(self.match_pattern(sp, x, env) for sp, x in zip(p.patterns[i + 1:], v[len(v) - tail:] if tail else []))
+                if head_ok and tail_ok:
+                    name = p.patterns[i].name       # type: ignore
+                    if name is not None:
+                        env[name] = list(v[i:len(v) - tail])
+                    return True
+                return False
+            if stars or len(v) != len(p.patterns):
                 return False
             return all(self.match_pattern(sp, x, env) for sp, x in zip(p.patterns, v))
         raise ShapeError(f'pattern `{ast.unparse(p)}` not read')
